@@ -181,7 +181,10 @@ CHECKS = {
         category="proof",
         text="Lean theorems on the header map (get_after_set under any letter case, one_entry_per_name, name_case_insensitive) and on the Date "
              "arithmetic: date_roundtrip (toSecs (civil t) = t for every instant, no upper bound: 400-year cycle argument over a model that "
-             "transcribes httpdate's two conversions), date_injective, date_fields_in_range (month, day of month, weekday), date_time_of_day. "
+             "transcribes httpdate's two conversions), date_injective, date_fields_in_range (month, day of month, weekday), date_time_of_day, "
+             "date_header_roundtrip (the text of the header: what Display + GMT->+0000 writes, Date::parse = +0000->GMT, parse_imf_fixdate, "
+             "is_valid reads back to the same second up to year 9999; Model/DateText.lean, the parser model compared with Date::parse on "
+             "valid, mutated and out-of-range texts). "
              "The mailbox grammar round trip (display, then the chumsky grammar transcribed as a PEG, then Address::new) is proved: "
              "mailbox_roundtrip and mailbox_list_roundtrip (for every mailbox / non-empty list whose addresses have a dot-atom or quoted local part and a dot-atom or literal domain (class GoodAddr) and "
              "EVERY display name - quotes, commas, angle brackets, CR, LF, NUL included - Display does not fail and FromStr returns equal "
